@@ -32,13 +32,25 @@ class TieBroken(Exception):
     """the model/driver/translator can no longer be built against the current tree"""
 
 
-def sh(cmd, timeout=1200, cwd=None, env=None, input=None):
+def _big_stack():
+    """the extracted model is not tail-recursive: a run-away implementation trace (step limit) must not overflow its stack"""
+    import resource
+    soft, hard = resource.getrlimit(resource.RLIMIT_STACK)
+    want = hard if hard != resource.RLIM_INFINITY else resource.RLIM_INFINITY
+    try:
+        resource.setrlimit(resource.RLIMIT_STACK, (want, hard))
+    except (ValueError, OSError):
+        pass
+
+
+def sh(cmd, timeout=1200, cwd=None, env=None, input=None, bigstack=False):
     e = dict(os.environ)
     if env:
         e.update(env)
     try:
         r = subprocess.run(cmd, cwd=cwd, env=e, input=input, stdout=subprocess.PIPE, stderr=subprocess.STDOUT,
-                           timeout=timeout, text=True, errors="replace", shell=isinstance(cmd, str))
+                           timeout=timeout, text=True, errors="replace", shell=isinstance(cmd, str),
+                           preexec_fn=_big_stack if bigstack else None)
         return r.returncode, r.stdout
     except subprocess.TimeoutExpired as ex:
         out = ex.stdout or ""
